@@ -140,3 +140,22 @@ contract(f"{ES}::TunnelExitSocket.tunnel_data", "tunnel_data.bound-to-own-circui
          on_effect={"send_data": ["args == (self.hop.peer._address, self.circuit_id, ('0.0.0.0', 0), source, data)"]},
          ensures=["len(calls('send_data')) == 1"],
          note="what comes back from outside re-enters the tunnel only on the socket's own circuit, towards its previous hop")
+
+# ---------------------------------------------------------------------------------------------------------------------
+# exit sockets share no mutable state: everything a socket queues, counts or opens belongs to that instance
+contract(f"{ES}::TunnelExitSocket.__init__", "exit-sockets-share-no-state",
+         vars={"ESC": EXPR(f"resolve_class('{ES}::TunnelExitSocket')"), "c1": RANGE(0, 2 ** 32 - 1), "c2": RANGE(0, 2 ** 32 - 1),
+               "h1": HOP(), "h2": HOP(), "ov": EFFECT("overlay")},
+         call="(ESC(c1, h1, ov), ESC(c2, h2, ov))", raises=[], stubs=TASK_STUBS,
+         ensures=["result[0].queue is not result[1].queue", "len(result[0].queue) == 0 and len(result[1].queue) == 0",
+                  "result[0].circuit_id == c1 and result[1].circuit_id == c2", "result[0].hop is h1 and result[1].hop is h2",
+                  "not result[0].enabled and not result[1].enabled",
+                  "result[0]._pending_tasks is not result[1]._pending_tasks",
+                  # no mutable container is a class attribute (shared by construction)
+                  "all(own_attr(result[0], n) for n in ('queue', 'hop', 'enabled', 'transport_ipv4', 'transport_ipv6', 'bytes_up',"
+                  " 'bytes_down', 'last_activity', 'circuit_id'))"],
+         note="two exit sockets of one node never see each other's queued packets, counters or transports")
+
+
+def own_attr(obj, name):
+    return name in obj.__dict__
